@@ -1,4 +1,5 @@
 import SFV.Model.CwlCmdSh
+import SFV.Gen.CwlCmdTpl
 /-! # CwlCmd — command-line binding: StreamFlow's algorithm next to the CWL standard's
 
 Modelled fragment: inputs of scalar type (string / int / float / enum / File path — all already rendered as text by
@@ -80,7 +81,15 @@ def specQuoted (shell : Bool) (p : Param) : Bool :=
 
 /-! ## StreamFlow (`CWLCommandTokenProcessor.bind`, `_merge_tokens`, `_get_executable_command`) -/
 
-/-- sort key `[t.position, t.name] if t.name is not None else [t.position]` (Python list comparison) -/
+/-- how `create_command` renders the value of an environment variable (quoting style regenerated from the source) -/
+def envRender (v : List Char) : List Char :=
+  match Gen.CwlCmdTpl.envQuote with
+  | .dq => dqRender v
+  | .shlex => shlexQuote v
+  | .raw => v
+
+/-- sort key `[t.position, t.name] if t.name is not None else [t.position]` (Python list comparison; the shape of the
+key is checked by the extractor: `Gen.CwlCmdTpl.sortKeyPositionThenName`) -/
 def sfLe (a b : Param) : Bool :=
   let pa := (a.bind.map (·.position)).getD 0
   let pb := (b.bind.map (·.position)).getD 0
